@@ -844,6 +844,14 @@ Definition irregular_ok (T : tables) : bool :=
          str_eqb c1 (s2l "Enum") && str_eqb c2 (s2l "Set")
      | _, _ => false end.
 
+(** expectations of the hand model that the table does not meet (dialect, keyword), for reports *)
+Definition bad_irregular (T : tables) : list (str * str) :=
+  map (fun e => match e with (d, kw, _) => (d, kw) end)
+      (filter (fun e => match e with (d, kw, tag) =>
+                 negb match find_parow (t_parse T) d kw with
+                      | Some {| r_kind := RIrregular t |} => str_eqb t tag
+                      | _ => false end end) irregular_expect).
+
 Definition kws_disjoint (T : tables) : bool :=
   forallb (fun k => negb (mem_str k (all_alt_kws T))) family_kws.
 
